@@ -65,9 +65,12 @@ CLAIMS = {
     "C15": dict(cat="proof", ref="DESIGN.md section 5 C15",
                 text="PARTIAL proof. Props/C15.v proves on the regenerated xml table: bulk sets contain CR and NUL and every "
                      "singled-out character; reads come first; and chunk independence of the tokenizer's reference semantics (flat "
-                     "queue, exact_errors = true) by the same generic theorem as C03 - _partial because the run relation carries the "
-                     "side condition that the reconsume flag is clear when a look-ahead state is entered (true of the xml table by "
-                     "inspection, not proved as an invariant). Chunking / exact_errors / discard_bom independence of the real "
+                     "queue, exact_errors = true) by the same generic theorem as C03; the run relation's side condition (reconsume flag "
+                     "clear when a state starting with eat() is entered) is proved to be an invariant of the interpreter on the "
+                     "regenerated table (TokIR/ChunkInv.v: kept by every step, by appended input and injected script text, true of "
+                     "every initial machine), so the relation is the fuelled executable loop on every reachable machine. Still "
+                     "_partial: the chunked-queue / bulk-read / non-exact interpreter vs the reference semantics, and the Rust code "
+                     "vs the interpreter, are tied differentially. Chunking / exact_errors / discard_bom independence of the real "
                      "parser and the normalisation law tree(x) = tree(normalise(x)) are checked metamorphically on the "
                      "implementation (tokens and trees); reference vs chunked interpreter vs Rust code tied differentially.",
                 note=TOK_NOTE, tech="generic Coq suspend/resume proof + reflective checks on regenerated xml table + chunking/option/normalisation oracles"),
